@@ -461,6 +461,19 @@ def _k7(run, ctx, L, K7):
                     v = repo.fold(f.module, n.iter)
                     if isinstance(v, (list, tuple)) and all(isinstance(x, str) for x in v) and set(v) & set(CF.LANG_KEYS):
                         langs |= set(v)
+        # each language level is written independently: a missing <language> section must not end the loop
+        for f in funcs:
+            for loop in [n for n in ast.walk(f.node) if isinstance(n, ast.For)]:
+                v = repo.fold(f.module, loop.iter)
+                if not (isinstance(v, (list, tuple)) and set(v) & set(CF.LANG_KEYS)):
+                    continue
+                outer = [n for n in ast.walk(f.node) if isinstance(n, (ast.With, ast.Try)) and any(x is loop for x in ast.walk(n))]
+                leaves = [n for n in ast.walk(loop) if isinstance(n, (ast.Break, ast.Return, ast.Raise))]
+                if outer or leaves:
+                    what = norm(outer[0]).split(":")[0] if outer else norm(leaves[0])
+                    run.finding(K7, f"{f.name} language loop", f"loop-cut:{what}", f"{f.name}: the loop over {list(v)} is left at the first language that has no section ({what} around/inside the loop): the languages after it keep the config-file value although the command-line option was given", f"{f.module.rel}:{loop.lineno}")
+                else:
+                    run.ok(K7, f"{f.name} language loop", f"each of {list(v)} is attempted on its own (exception handling is per iteration)")
         for k in sorted(top_keys):
             if k not in cc.keys:
                 run.finding(K7, f"{h.name}[{k}]", "unread-key", f"{h.name} writes {sec}.{k} but {c.name}.from_dict never reads that key: the command-line option has no effect", h.loc)
